@@ -134,6 +134,15 @@ def do_render(req):
                     apps.append({'args': args, 'argstrs': apps[-1]['argstrs'], 'out': app.pretty(opts), 'ok': True})
             except Exception as e:   # noqa
                 pass
+    if N.arity >= 2 and req.get('selfnest'):
+        # N(.., N(.., a, b), c) against N(.., a, N(.., b, c)), built here so that the inner application is the very same notation
+        a_, b_, c_ = (B.to_py(x) for x in req['selfnest'])
+        pre = [a_] * (N.arity - 2)
+        for args in (pre + [N(*(pre + [a_, b_])), c_], pre + [a_, N(*(pre + [b_, c_]))]):
+            try:
+                apps.append({'args': [B.to_json(x) for x in args], 'argstrs': [x.pretty(opts) for x in args], 'out': N(*args).pretty(opts), 'ok': True})
+            except Exception as e:   # noqa
+                apps.append({'args': [], 'argstrs': [], 'out': type(e).__name__, 'ok': False})
     return {'label': req['label'], 'arity': N.arity, 'definition': B.to_json(N.definition), 'holes': holes, 'format': N.format_str, 'apps': apps}
 
 
